@@ -36,7 +36,7 @@ TABLE = [
     ('api.ParquetFile.__setstate__', 'self', r'\[1\]$', 'MEMO', 'decodes file_path bytes->str in place (idempotent)'),
     ('api.ParquetFile._dtypes', 'self', r'\.(_base_dtype|tz)$', 'MEMO', 'derived from immutable metadata only (no call argument flows in)'),
     ('api.ParquetFile._read_partitions', 'self', r'\.(file_scheme|cats)$', 'CONSTRUCT', 'runs in _set_attrs of a handle being built'),
-    ('api.ParquetFile._set_attrs', 'self', r'\.(selfmade|schema|created_by|row_groups|_schema|version|dtypes)$', 'CONSTRUCT', 'handle being built'),
+    ('api.ParquetFile._set_attrs', 'self', r'\.(selfmade|schema|created_by|row_groups|_schema|version|dtypes|_statistics)$', 'CONSTRUCT', 'handle being built (the statistics cache is reset with the row groups)'),
     ('api.ParquetFile.categories', 'self', r'\.(_categories|_columns_dtype)$', 'MEMO', 'idempotent'),
     ('api.ParquetFile.key_value_metadata', 'self', r'\._kvm$', 'MEMO', 'idempotent'),
     ('api.ParquetFile.pandas_metadata', 'self', r'\._pdm$', 'MEMO', 'idempotent'),
